@@ -16,7 +16,7 @@ RULE = ("Hypothesis draws items (predicate value, payload) whose predicate value
         "arbitrary inner pipelines the output equals the reference model. Non-trivial: >= 2 runs and a run with two adjacent items whose "
         "predicate values are equal but distinct objects.")
 ASSUMPTIONS = [
-    'predicate values support == / != consistently (no NaN)',
+    'segments are cut by != exactly as the statement says: a NaN predicate value differs from itself, so every such item starts a segment',
     'inner pipelines contain only total, pure user functions',
 ]
 
@@ -58,7 +58,7 @@ def verify_split(items, item_t, done_t, segs, ctx):
 
 @st.composite
 def case_gen(draw):
-    pool = draw(st.lists(keys.SPEC, min_size=1, max_size=4))
+    pool = draw(st.lists(st.one_of(keys.SPEC, keys.SPEC, keys.SPEC, st.tuples(st.just('nan'), st.integers(0, 1)).map(list)), min_size=1, max_size=4))
     m = draw(st.sampled_from([0, 1, 4, 8]))
     # predicate index sequence with long runs: (index, repeat)
     segs = draw(st.lists(st.tuples(st.integers(0, len(pool) - 1), st.integers(1, 4)), min_size=min(m, 3), max_size=8))
@@ -70,18 +70,23 @@ def case_gen(draw):
     pspec = [draw(st.integers(1, 5)), draw(st.integers(1, 5))] if parent == 'roll' else None
     which = draw(st.sampled_from(['to_list', 'to_list', 'p']))
     p = draw(gen.chain('int', INNER, 1, min_len=1)) if which == 'p' else [['to_list']]
-    return {'pool': pool, 'preds': preds, 'gk': gk, 'parent': parent, 'pspec': pspec, 'p': p}
+    # a key-stateful operator BEHIND split, inside the same parent key: it must receive the last segment's result
+    # before the parent key completes
+    post = draw(st.sampled_from([None, None, 'to_list', 'count']))
+    return {'pool': pool, 'preds': preds, 'gk': gk, 'parent': parent, 'pspec': pspec, 'p': p, 'post': post}
 
 
 def check(case):
     pool, parent, p = case['pool'], case['parent'], case['p']
     # item = (predicate object, payload int, group key)
     objs = [(keys.mk(pool[pi]), n, g) for n, (pi, g) in enumerate(zip(case['preds'], case['gk']))]
-    ctx = {k: case[k] for k in ('pool', 'preds', 'gk', 'parent', 'pspec', 'p')}
+    ctx = {k: case.get(k) for k in ('pool', 'preds', 'gk', 'parent', 'pspec', 'p', 'post')}
+    post = case.get('post')
+    post_real = {None: [], 'to_list': [rs.data.to_list()], 'count': [rs.ops.count()]}[post]
     clock, phead, head, tail = [0], [], [], []
     to_list_inner = p == [['to_list']]
     seg_ops = [drive.tap(head, clock)] + ([rs.data.to_list()] if to_list_inner else [rs.ops.map(lambda i: i[1])] + A.build_pipeline(p, A.Env()))
-    inner = [drive.tap(phead, clock), rs.data.split(lambda i: i[0], seg_ops)]
+    inner = [drive.tap(phead, clock), rs.data.split(lambda i: i[0], seg_ops)] + post_real
     if parent == 'none':
         ops = inner
     elif parent == 'group_by':
@@ -96,7 +101,8 @@ def check(case):
     def seg_chain():
         return M.Chain(mctx, [M.Scan(A.acc_append, list, True)] if to_list_inner else [M.Map(lambda i: i[1])] + A.model_chain(p, mctx).ops)
     def split_chain():
-        return M.Chain(mctx, [M.Split(lambda i: i[0], seg_chain)])
+        post_model = {None: [], 'to_list': [M.Scan(A.acc_append, list, True)], 'count': [M.Prefix(len, False)]}[post]
+        return M.Chain(mctx, [M.Split(lambda i: i[0], seg_chain)] + post_model)
     if parent == 'none':
         top = split_chain()
     elif parent == 'group_by':
@@ -133,7 +139,7 @@ def check(case):
                     eqni = True
     if claimed != len(sl):
         raise Violation('%d segments were opened outside any parent key lifetime' % (len(sl) - claimed), **ctx)
-    labels = ['parent:' + parent, 'inner:' + ('to_list' if to_list_inner else 'p'), 'runs=%d' % min(nruns, 4)]
+    labels = ['post:%s' % post, 'parent:' + parent, 'inner:' + ('to_list' if to_list_inner else 'p'), 'runs=%d' % min(nruns, 4)]
     if eqni:
         labels.append('equal-not-identical-in-run')
     if not objs:
